@@ -316,3 +316,33 @@ func use(o Opts) int { return o.n }
 // R-ALIAS (big.Int)
 func BigCopyBad(dst, src *big.Int) { *dst = *src }
 func BigCopyOK(dst, src *big.Int)  { dst.Set(src) }
+
+// R-SIGN
+func digits(dst []byte, v int) []byte { return append(dst, byte('0'+v/10%10), byte('0'+v%10)) }
+
+func SignOK(dst []byte, offset int) []byte {
+	m := offset / 60
+	if m < 0 {
+		m = -m
+	}
+	dst = digits(dst, m/60)
+	return digits(dst, m%60)
+}
+
+func SignBad(dst []byte, offset int) []byte {
+	m := offset / 60
+	h, r := m/60, m%60
+	if h < 0 {
+		h = -h
+	}
+	dst = digits(dst, h)
+	return digits(dst, r)
+}
+
+// R-DEAD: self-comparison and cross-field append
+type lists struct{ a, b []int }
+
+func SelfCmpBad(x, y *lists) bool { return len(x.a) != len(x.a) || len(x.b) != len(y.b) }
+func SelfCmpOK(x, y *lists) bool  { return len(x.a) != len(y.a) || len(x.b) != len(y.b) }
+func CrossBad(x *lists, v []int)  { x.b = append(x.a, v...) }
+func CrossOK(x *lists, v []int)   { x.b = append(x.b, v...) }
